@@ -15,19 +15,34 @@ import (
 
 func selfValidate(p *Property, repo, verif string) []map[string]interface{} {
 	var report []map[string]interface{}
-	dir := filepath.Join(verif, "mutants")
-	ents, err := os.ReadDir(dir)
-	if err != nil {
-		return report
-	}
 	var patches []string
-	for _, e := range ents {
-		if strings.HasPrefix(e.Name(), p.ID+"-") && strings.HasSuffix(e.Name(), ".patch") {
-			patches = append(patches, e.Name())
+	if ents, err := os.ReadDir(filepath.Join(verif, "mutants")); err == nil {
+		for _, e := range ents {
+			if strings.HasPrefix(e.Name(), p.ID+"-") && strings.HasSuffix(e.Name(), ".patch") {
+				patches = append(patches, filepath.Join(verif, "mutants", e.Name()))
+			}
 		}
 	}
-	for _, name := range patches {
-		patch := filepath.Join(dir, name)
+	if ents, err := os.ReadDir(filepath.Join(verif, "seeded")); err == nil {
+		for _, e := range ents {
+			if strings.HasPrefix(e.Name(), p.ID+"-") && e.IsDir() {
+				pf := filepath.Join(verif, "seeded", e.Name(), "patch.diff")
+				if _, err := os.Stat(pf); err == nil {
+					patches = append(patches, pf)
+				}
+			}
+		}
+	}
+	known := loadKnown(verif)
+	kk := map[string]bool{}
+	for _, k := range known.Findings {
+		if k.Property == p.ID {
+			kk[k.Key] = true
+		}
+	}
+	applied := 0
+	for _, patch := range patches {
+		name := strings.TrimPrefix(patch, verif+"/")
 		scratch, err := os.MkdirTemp("", "rtcheck-mutant-")
 		if err != nil {
 			fatalf("self-validation: %v", err)
@@ -39,39 +54,34 @@ func selfValidate(p *Property, repo, verif string) []map[string]interface{} {
 			if out, err := cp.CombinedOutput(); err != nil {
 				fatalf("self-validation: copying the tree: %v\n%s", err, out)
 			}
-			ap := exec.Command("patch", "-p1", "-s", "-i", patch)
+			ap := exec.Command("patch", "-p1", "-s", "-f", "-i", patch)
 			ap.Dir = scratch
 			if out, err := ap.CombinedOutput(); err != nil {
-				fatalf("self-validation: mutant %s no longer applies to the current tree (checker error, refresh the mutant): %v\n%s", name, err, out)
+				// the analysed tree differs from the one the mutant was written against: not a verdict on anything
+				report = append(report, map[string]interface{}{"mutant": name, "status": "skipped: does not apply to the analysed tree", "detail": strings.TrimSpace(string(out))})
+				fmt.Printf("  self-validation: mutant %-60s skipped (does not apply to this tree)\n", name)
+				return
 			}
+			applied++
 			prog := Load(LoadConfig{Dir: scratch})
 			c := &Ctx{P: prog, Property: p.ID, Tier: "thorough"}
 			p.Run(c)
-			var failed []string
-			for _, o := range c.Obs {
-				if !o.OK {
-					failed = append(failed, o.Key)
-				}
-			}
-			known := loadKnown(verif)
-			kk := map[string]bool{}
-			for _, k := range known.Findings {
-				if k.Property == p.ID {
-					kk[k.Key] = true
-				}
-			}
 			var fresh []string
-			for _, k := range failed {
-				if !kk[k] {
-					fresh = append(fresh, k)
+			for _, o := range c.Obs {
+				if !o.OK && !kk[o.Key] {
+					fresh = append(fresh, o.Key)
 				}
 			}
 			if len(fresh) == 0 {
-				fatalf("self-validation: mutant %s is NOT reported by the rules of %s (checker error)", name, p.ID)
+				fatalf("self-validation: mutant %s applies but is NOT reported by the rules of %s (checker error)", name, p.ID)
 			}
-			report = append(report, map[string]interface{}{"mutant": name, "reported": fresh})
-			fmt.Printf("  self-validation: mutant %-45s reported by %s\n", name, strings.Join(fresh, ", "))
+			if len(fresh) > 4 {
+				fresh = fresh[:4]
+			}
+			report = append(report, map[string]interface{}{"mutant": name, "status": "reported", "by": fresh})
+			fmt.Printf("  self-validation: mutant %-60s reported by %s\n", name, fresh[0])
 		}()
 	}
+	fmt.Printf("  self-validation: %d mutants applied and reported, %d skipped\n", applied, len(patches)-applied)
 	return report
 }
